@@ -23,11 +23,10 @@ const (
 )
 
 type token struct {
-	k    tokKind
 	s    string
 	line int32
-	// literals
 	bits uint32 // value bits for int/float literals that fit 32 bits
+	k    tokKind
 	lk   litKind
 }
 
@@ -60,7 +59,7 @@ var puncts3 = []string{"<<=", ">>=", "..."}
 var puncts2 = []string{"<<", ">>", "<=", ">=", "==", "!=", "&&", "||", "+=", "-=", "*=", "/=", "%=", "&=", "|=", "^=", "++", "--", "::", "->"}
 
 func lex(src string) ([]token, error) {
-	toks := make([]token, 0, len(src)/4+16)
+	toks := make([]token, 0, len(src)/3+16)
 	line := 1
 	i := 0
 	n := len(src)
